@@ -4,6 +4,7 @@ From M Require Import Base Flat Multi.
 Import ListNotations.
 
 (* ------------------------------------------------------------------ basic facts *)
+Ltac splits := repeat match goal with |- _ /\ _ => split end.
 Lemma helper_eqb_eq a b : helper_eqb a b = true <-> a = b.
 Proof.
   destruct a, b; simpl; split; intro H; try reflexivity; try discriminate;
@@ -503,7 +504,7 @@ Proof.
 Qed.
 
 Lemma lay_graph_f k w m r w' :
-  lay_graph k w m = (r, w') ->
+  lay_graph k false w m = (r, w') ->
   w_mc w' = w_mc w /\ w_models w' = w_models w /\ w_ctx w' = w_ctx w /\ w_queues w' = w_queues w /\
   w_pos w' = w_pos w /\ w_initial w' = w_initial w /\
   (forall x, x <> m -> w_obj w' x = w_obj w x) /\
@@ -533,13 +534,13 @@ Proof.
     intros [Hx|[_ [_ Hc]]]; [exact Hx | discriminate].
 Qed.
 
-Lemma layers_f k w1 m r w' :
-  lay_graph k (lay_queue k (lay_locked k w1 m) m) m = (r, w') ->
+Lemma layers_f k was w1 m r w' :
+  lay_graph k was (lay_queue k (lay_locked k w1 m) m) m = (r, w') ->
   w_mc w' = w_mc w1 /\ w_models w' = w_models w1 /\ w_pos w' = w_pos w1 /\ w_initial w' = w_initial w1 /\
   (forall x, x <> m -> w_obj w' x = w_obj w1 x) /\
   o_state (w_obj w' m) = o_state (w_obj w1 m) /\
   (forall h, has_helper h (o_helpers (w_obj w1 m)) = true -> has_helper h (o_helpers (w_obj w' m)) = true) /\
-  (k_graph k = true -> has_helper HGraph (o_helpers (w_obj w' m)) = true) /\
+  (k_graph k = true -> was = false -> has_helper HGraph (o_helpers (w_obj w' m)) = true) /\
   (forall x, In x (w_ctx w') <-> In x (w_ctx w1) \/ (x = m /\ k_locked k = true)) /\
   (forall x, In x (w_queues w') <-> In x (w_queues w1) \/ (x = m /\ per_model_queue k = true)) /\
   (forall x, In x (w_graphs w') -> In x (w_graphs w1) \/ x = m).
@@ -547,21 +548,25 @@ Proof.
   intro H.
   destruct (lay_locked_f k w1 m) as (L1&L2&L3&L4&L5&L6&L7&L8&L9).
   destruct (lay_queue_f k (lay_locked k w1 m) m) as (Q1&Q2&Q3&Q4&Q5&Q6&Q7&Q8&Q9).
-  destruct (lay_graph_f _ _ _ _ _ H) as (G1&G2&G3&G4&G5&G6&G7&G8&G9&G10&G11&G12).
-  repeat split.
-  - congruence.
-  - congruence.
-  - congruence.
-  - congruence.
-  - intros x Hx. rewrite G7 by auto. rewrite Q3, L3. reflexivity.
-  - rewrite G8, Q3, L3. reflexivity.
-  - intros h Hh. apply G9. rewrite Q3, L3. exact Hh.
-  - exact G10.
-  - rewrite G3, Q4. apply L8.
-  - rewrite G3, Q4. apply L8.
-  - rewrite G4, <- L4. apply Q8.
-  - rewrite G4, <- L4. apply Q8.
-  - intros x Hx. apply G11 in Hx. rewrite Q5, L5 in Hx. tauto.
+  destruct was.
+  - (* registered before the call: the graph layer does nothing *)
+    unfold lay_graph in H. injection H as <- <-. splits; try congruence.
+    + intro x. rewrite Q4. apply L8.
+    + intro x. rewrite <- L4. apply Q8.
+    + intros x Hx. rewrite Q5, L5 in Hx. left. exact Hx.
+  - destruct (lay_graph_f _ _ _ _ _ H) as (G1&G2&G3&G4&G5&G6&G7&G8&G9&G10&G11&G12).
+    splits.
+    + congruence.
+    + congruence.
+    + congruence.
+    + congruence.
+    + intros x Hx. rewrite G7 by auto. rewrite Q3, L3. reflexivity.
+    + rewrite G8, Q3, L3. reflexivity.
+    + intros h Hh. apply G9. rewrite Q3, L3. exact Hh.
+    + intros Hg _. exact (G10 Hg).
+    + intro x. rewrite G3, Q4. apply L8.
+    + intro x. rewrite G4, <- L4. apply Q8.
+    + intros x Hx. apply G11 in Hx. rewrite Q5, L5 in Hx. tauto.
 Qed.
 
 Lemma NoDup_snoc (l : list nat) x : NoDup l -> ~ In x l -> NoDup (l ++ [x]).
@@ -581,7 +586,7 @@ Proof.
   destruct (mem_nat m (w_models w)) eqn:Em.
   - (* already registered *)
     inversion Ec; subst; clear Ec. apply mem_nat_In in Em.
-    destruct (layers_f _ _ _ _ _ H) as (F1&F2&F3&F4&F5&F6&F7&F8&F9&F10&F11).
+    destruct (layers_f _ _ _ _ _ _ H) as (F1&F2&F3&F4&F5&F6&F7&F8&F9&F10&F11).
     constructor.
     + rewrite F2. apply I.
     + intros x h Hx He. rewrite F2 in Hx. rewrite F1 in He.
@@ -594,7 +599,7 @@ Proof.
     destruct (get_state (w_mc w) match init with Some s => s | None => w_initial w end) as [sd|] eqn:Eg.
     + (* registered now *)
       inversion Ec; subst; clear Ec.
-      destruct (layers_f _ _ _ _ _ H) as (F1&F2&F3&F4&F5&F6&F7&F8&F9&F10&F11).
+      destruct (layers_f _ _ _ _ _ _ H) as (F1&F2&F3&F4&F5&F6&F7&F8&F9&F10&F11).
       cbn [w_mc w_models w_obj w_ctx w_queues w_graphs w_pos w_initial set_models set_objs] in *. constructor.
       * rewrite F2. apply NoDup_snoc; [apply I | exact Em].
       * intros x h Hx He. rewrite F2 in Hx. rewrite F1 in He. apply in_app_iff in Hx.
@@ -605,7 +610,7 @@ Proof.
               { rewrite has_add_helpers. apply orb_true_iff. right. apply mh_spec. exact Hd. }
               destruct (k_hsm k); [rewrite has_add_helper, Hb; reflexivity | exact Hb].
            ++ apply F7. rewrite upd_obj_eq. cbn [o_helpers o_state]. rewrite Hh. rewrite has_add_helper. cbn [helper_eqb]. apply orb_true_r.
-           ++ apply F8. exact Hg.
+           ++ apply F8; [exact Hg | reflexivity].
         -- destruct Hx as [Hx|[Hx|[]]]; [|congruence].
            rewrite F5 by auto. rewrite upd_obj_neq by auto. apply I; auto.
       * intros x Hx. rewrite F2 in Hx. apply in_app_iff in Hx.
@@ -742,8 +747,6 @@ Proof.
 Qed.
 
 (* ------------------------------------------------------------------ events touch only the models they run on *)
-Ltac splits := repeat match goal with |- _ /\ _ => split end.
-
 Definition multi_rel (ms : list model) (w w' : mworld) : Prop :=
   (forall x, ~ In x ms -> w_obj w' x = w_obj w x) /\
   (forall x, o_helpers (w_obj w' x) = o_helpers (w_obj w x)) /\
@@ -905,14 +908,14 @@ Proof. intros w Hm He. exact (inv_complete _ _ (Inv_reachable k ev mc ini hs) m 
 Lemma add_twice_thm k ev w m init bs r w' :
   Inv k w -> In m (w_models w) ->
   step k ev w (OAddModel m init) = (bs, r, w') ->
-  bs = [] /\ r = (if k_graph k then inl AttributeError else inr None) /\ world_eq w w'.
+  bs = [] /\ r = inr None /\ world_eq w w'.
 Proof.
   intros I Hm H. unfold step in H. destruct (add_model k w m init) as [r1 w1] eqn:E.
   injection H as <- <- <-. split; [reflexivity|].
   unfold add_model, add_core in E. apply mem_nat_In in Hm. rewrite Hm in E. apply mem_nat_In in Hm.
+  unfold lay_graph in E. injection E as <- <-. split; [reflexivity|].
   destruct (lay_locked_f k w m) as (L1&L2&L3&L4&L5&L6&L7&L8&L9).
   destruct (lay_queue_f k (lay_locked k w m) m) as (Q1&Q2&Q3&Q4&Q5&Q6&Q7&Q8&Q9).
-  destruct (lay_graph_f _ _ _ _ _ E) as (G1&G2&G3&G4&G5&G6&G7&G8&G9&G10&G11&G12).
   assert (Hc : w_ctx (lay_locked k w m) = w_ctx w).
   { destruct (k_locked k) eqn:Ek; [apply L9; apply (inv_ctx _ _ I); auto|].
     unfold lay_locked. rewrite Ek. reflexivity. }
@@ -920,10 +923,6 @@ Proof.
   { destruct (per_model_queue k) eqn:Ek.
     - rewrite Q9; [exact L4|]. rewrite L4. apply (inv_queue _ _ I); auto.
     - unfold lay_queue. rewrite Ek. exact L4. }
-  assert (Hg : has_helper HGraph (o_helpers (w_obj (lay_queue k (lay_locked k w m) m) m)) = true \/ k_graph k = false).
-  { destruct (k_graph k) eqn:Ek; [left|right; reflexivity]. rewrite Q3, L3.
-    apply (inv_complete _ _ I); auto. right. right. auto. }
-  destruct (G12 Hg) as (O1 & O2 & O3). split; [exact O3|].
   unfold world_eq. splits; try congruence.
 Qed.
 
@@ -985,7 +984,7 @@ Proof.
     destruct (add_core_untouched _ _ _ _ _ _ _ Ec Ho Hm) as (C1&C2&C3&C4&C5).
     destruct oe as [x|].
     + injection E as <- <-. unfold untouched. splits; auto; congruence.
-    + destruct (layers_f _ _ _ _ _ E) as (F1&F2&F3&F4&F5&F6&F7&F8&F9&F10&F11).
+    + destruct (layers_f _ _ _ _ _ _ E) as (F1&F2&F3&F4&F5&F6&F7&F8&F9&F10&F11).
       unfold untouched. splits.
       * rewrite F5; auto.
       * rewrite F2. exact C2.
@@ -1190,7 +1189,7 @@ Lemma add_twice_reachable k ev mc ini hs m init bs r w' :
   let w := run k ev (init_world mc ini) hs in
   In m (w_models w) ->
   step k ev w (OAddModel m init) = (bs, r, w') ->
-  bs = [] /\ r = (if k_graph k then inl AttributeError else inr None) /\ world_eq w w'.
+  bs = [] /\ r = inr None /\ world_eq w w'.
 Proof. intro w. apply add_twice_thm. apply Inv_reachable. Qed.
 
 Lemma remove_reachable k ev mc ini hs m bs r w' :
@@ -1238,3 +1237,43 @@ Lemma two_machines_hsm_witness :
   | None => False
   end.
 Proof. vm_compute. repeat split; reflexivity. Qed.
+
+(* what still raises in the graph classes: an object that is NOT registered but already owns get_graph
+   (a model removed earlier — nothing unbinds the attribute — or one shared with another graph machine):
+   the base add_model registers it, then GraphMachine.add_model raises; no graph is built *)
+Opaque machine_helpers add_helpers add_helper.
+Lemma graph_readd_thm k ev w m init bs r w' :
+  k_graph k = true -> ~ In m (w_models w) ->
+  has_helper HGraph (o_helpers (w_obj w m)) = true ->
+  get_state (w_mc w) (match init with Some s => s | None => w_initial w end) <> None ->
+  step k ev w (OAddModel m init) = (bs, r, w') ->
+  r = inl AttributeError /\ w_models w' = w_models w ++ [m] /\ w_graphs w' = w_graphs w /\
+  o_state (w_obj w' m) = Some (match init with Some s => s | None => w_initial w end).
+Proof.
+  intros Hk Hm Hg Hs H. unfold step in H. destruct (add_model k w m init) as [r1 w1] eqn:E.
+  injection H as _ <- <-. unfold add_model, add_core in E.
+  apply mem_nat_false in Hm. rewrite Hm in E.
+  destruct (get_state (w_mc w) match init with Some s => s | None => w_initial w end) as [sd|]; [|congruence].
+  match type of E with lay_graph k false (lay_queue k (lay_locked k ?W m) m) m = _ => set (w0 := W) in * end.
+  destruct (lay_locked_f k w0 m) as (L1&L2&L3&L4&L5&L6&L7&L8&L9).
+  destruct (lay_queue_f k (lay_locked k w0 m) m) as (Q1&Q2&Q3&Q4&Q5&Q6&Q7&Q8&Q9).
+  assert (Hh : has_helper HGraph (o_helpers (w_obj (lay_queue k (lay_locked k w0 m) m) m)) = true).
+  { rewrite Q3, L3. unfold w0. cbn [w_obj set_models set_objs]. rewrite upd_obj_eq. cbn [o_helpers].
+    assert (Hb : has_helper HGraph (add_helpers (machine_helpers k (w_mc w)) (o_helpers (w_obj w m))) = true)
+      by (rewrite has_add_helpers, Hg; reflexivity).
+    destruct (k_hsm k); [rewrite has_add_helper, Hb; reflexivity | exact Hb]. }
+  unfold lay_graph in E. rewrite Hk, Hh in E. injection E as <- <-.
+  splits; auto.
+  - rewrite Q2, L2. reflexivity.
+  - rewrite Q5, L5. reflexivity.
+  - rewrite Q3, L3. unfold w0. cbn [w_obj set_models set_objs]. rewrite upd_obj_eq. reflexivity.
+Qed.
+Transparent machine_helpers add_helpers add_helper.
+
+Lemma graph_readd_witness :
+  match step gk (fun _ _ => mkReply true None [])
+             (run gk (fun _ _ => mkReply true None []) (init_world mc1 0) [OAddModel 0 None; ORemoveModel 0])
+             (OAddModel 0 None) with
+  | (_, r, w') => r = inl AttributeError /\ w_models w' = [0]
+  end.
+Proof. vm_compute. split; reflexivity. Qed.
